@@ -36,6 +36,12 @@ RULE = ("five families. format: EVERY single-field class over repr in {True, Fal
         "re-entrant callable} x {init set, init unset, init=False unset, init=False set} x 7 class "
         "namings (top-level, nested, function-local, nested-in-local, local-in-nested-local, undecorated "
         "subclass of a local class: local / top-level) x slots/dict x attr.s/define; then, on 3 namings, "
+        "[repr kinds now also: a FALSY callable object - __bool__ False / empty callable dict subclass / __len__ 0 - "
+        "as leaf or re-entrant callable, drawn for own and inherited fields everywhere]; a block over all 30 "
+        "(place of the decorated class in {top, nested, local, nested-in-local, local-in-nested-local}) x (place of "
+        "the RUNTIME class = a subclass without own generated __repr__, undecorated or decorated repr=False with one "
+        "more field, in {none, module level, class body, doubly nested class body, function, class inside a "
+        "function}) x slots/dict x attr.s/define; "
         "{init=False unset, init=False set, init set} x default kind of the init=False fields {none, "
         "default=value, factory} x how an unset attribute came to be unset {constructed then deleted, "
         "instance from cls.__new__(cls), class-level init=False with a hand-written __init__ that sets "
@@ -108,6 +114,25 @@ KEYS = [["i", 3], ["i", 10], ["s", "k"], ["s", "key two"], ["n"], ["s", ">."], [
 # classes from specs
 
 NAMINGS = ["top", "nested", "local", "nested_in_local", "local_in_nested_local", "sub_of_local", "sub_top"]
+BASE_PLACES = ["top", "nested", "local", "nested_in_local", "local_in_nested_local"]
+SUB_PLACES = ["top", "nested", "deep", "local", "local_holder"]
+# "<where the decorated class lives>+<where the subclass without own generated __repr__ lives>"
+ALL_NAMINGS = BASE_PLACES + ["%s+%s" % (bp, sp) for bp in BASE_PLACES for sp in SUB_PLACES]
+
+
+def split_naming(nm):
+    if nm == "sub_of_local":
+        return "local", "local"
+    if nm == "sub_top":
+        return "local", "top"
+    if "+" in nm:
+        bp, sp = nm.split("+")
+        return bp, sp
+    return nm, "none"
+
+
+def has_sub(cs):
+    return split_naming(cs["naming"])[1] != "none"
 _uid = itertools.count()
 
 
@@ -207,36 +232,65 @@ def class_source(cs, cidx):
     if cs.get("own_init"):
         body += ["def __init__(self):", "    pass"]
     deco = _deco_src(cs)
-    nm = cs["naming"]
-    if nm == "top":
-        src += _class_lines(0, deco, n, bases, body) + ["CLS = %s" % n]
+    bp, sp = split_naming(cs["naming"])
+    # --- the decorated class, placed at module level / in a class body / in a function ...
+    if bp == "top":
+        src += _class_lines(0, deco, n, bases, body) + ["_C = %s" % n]
         tail = n
-    elif nm == "nested":
-        src += ["class Outer%s:" % n] + _class_lines(4, deco, n, bases, body) + ["CLS = Outer%s.%s" % (n, n)]
+    elif bp == "nested":
+        src += ["class Outer%s:" % n] + _class_lines(4, deco, n, bases, body) + ["_C = Outer%s.%s" % (n, n)]
         tail = "Outer%s.%s" % (n, n)
-    elif nm in ("local", "sub_of_local", "sub_top"):
-        src += ["def mk%s():" % n] + _class_lines(4, deco, n, bases, body) + ["    return %s" % n]
-        if nm == "local":
-            src += ["CLS = mk%s()" % n]
-            tail = n
-        elif nm == "sub_of_local":
-            src += ["def mks%s(B):" % n, "    class S%s(B):" % n] + _sub_body(cs, 8) + ["    return S%s" % n,
-                    "CLS = mks%s(mk%s())" % (n, n)]
-            tail = "S" + n
-        else:
-            src += ["class S%s(mk%s()):" % (n, n)] + _sub_body(cs, 4) + ["CLS = S%s" % n]
-            tail = "S" + n
-    elif nm == "nested_in_local":
+    elif bp == "local":
+        src += ["def mk%s():" % n] + _class_lines(4, deco, n, bases, body) + ["    return %s" % n, "_C = mk%s()" % n]
+        tail = n
+    elif bp == "nested_in_local":
         src += ["def mk%s():" % n, "    class Outer%s:" % n] + _class_lines(8, deco, n, bases, body) + \
-               ["    return Outer%s.%s" % (n, n), "CLS = mk%s()" % n]
+               ["    return Outer%s.%s" % (n, n), "_C = mk%s()" % n]
         tail = "Outer%s.%s" % (n, n)
-    elif nm == "local_in_nested_local":
+    elif bp == "local_in_nested_local":
         src += ["def mk%s():" % n, "    class Outer%s:" % n, "        @staticmethod", "        def inner():"] + \
                _class_lines(12, deco, n, bases, body) + ["            return %s" % n,
-                                                          "    return Outer%s.inner()" % n, "CLS = mk%s()" % n]
+                                                          "    return Outer%s.inner()" % n, "_C = mk%s()" % n]
         tail = n
     else:
-        raise Infra("bad naming %r" % nm)
+        raise Infra("bad naming %r" % cs["naming"])
+    # --- ... and the RUNTIME class: the decorated class itself, or a subclass WITHOUT a generated __repr__ of
+    # its own (undecorated, or decorated with repr=False), placed somewhere else
+    sdeco = None
+    if cs.get("sub_norepr") and sp != "none":
+        sdeco = "@%s(repr=False, eq=False, slots=%r, frozen=%r)" % (
+            "attrs.define" if cs["deco"] == "define" else "attr.s", bool(cs["slots"]), bool(cs.get("frozen", False)))
+    sn = "S" + n
+
+    def sub(ind):
+        pad = " " * ind
+        lines = [pad + sdeco] if sdeco else []
+        lines.append(pad + "class %s(_C):" % sn)
+        if sdeco:
+            lines.append(pad + "    " + ("extra_s: object = attrs.field(default=5)" if cs["deco"] == "define"
+                                           else "extra_s = attr.ib(default=5)"))
+            return lines
+        return lines + _sub_body(cs, ind + 4)
+
+    if sp == "none":
+        src += ["CLS = _C"]
+    elif sp == "top":
+        src += sub(0) + ["CLS = %s" % sn]
+        tail = sn
+    elif sp == "nested":
+        src += ["class Holder%s:" % n] + sub(4) + ["CLS = Holder%s.%s" % (n, sn)]
+        tail = "Holder%s.%s" % (n, sn)
+    elif sp == "deep":
+        src += ["class Holder%s:" % n, "    class Inner:"] + sub(8) + ["CLS = Holder%s.Inner.%s" % (n, sn)]
+        tail = "Holder%s.Inner.%s" % (n, sn)
+    elif sp == "local":
+        src += ["def mks%s():" % n] + sub(4) + ["    return %s" % sn, "CLS = mks%s()" % n]
+        tail = sn
+    elif sp == "local_holder":
+        src += ["def mks%s():" % n, "    class Holder:"] + sub(8) + ["    return Holder.%s" % sn, "CLS = mks%s()" % n]
+        tail = "Holder.%s" % sn
+    else:
+        raise Infra("bad naming %r" % cs["naming"])
     return "\n".join(src) + "\n", tail
 
 
@@ -250,6 +304,7 @@ class Ctx:
         self.tls = threading.local()
         self.block = None
         self.called = []
+        self.defqn = []         # per class: __qualname__ of the DECORATED class (whose generated __repr__ runs)
 
     def tid(self):
         return getattr(self.tls, "t", 0)
@@ -267,8 +322,22 @@ class Ctx:
             self.block(key, t)
 
 
+CALLABLE_SHAPES = ["fn", "falsy_obj", "empty_dict", "len0"]
+
+
+def rm_shape(rm):
+    return rm[2] if isinstance(rm, list) and len(rm) > 2 else "fn"
+
+
+def rm_truthy(rm):
+    """bool() of the object passed as repr=."""
+    return rm if isinstance(rm, bool) else rm_shape(rm) == "fn"
+
+
 def _mk_callable(ctx, key, rm):
-    kind, tok = rm
+    """The object passed as repr=: a plain function, or a callable OBJECT that is falsy (a custom repr
+    callable is any callable; the generated code must test `is not False`, not truthiness)."""
+    kind, tok = rm[0], rm[1]
 
     if kind == "leaf":
         def fn(v):
@@ -278,7 +347,31 @@ def _mk_callable(ctx, key, rm):
         def fn(v):
             ctx.on_call(key)
             return tok + "(" + repr(v) + ")"
-    return fn
+    shape = rm_shape(rm)
+    if shape == "fn":
+        return fn
+    if shape == "falsy_obj":
+        class Formatter:
+            def __call__(self, v):
+                return fn(v)
+
+            def __bool__(self):
+                return False
+        return Formatter()
+    if shape == "empty_dict":
+        class Registry(dict):           # a (still empty) registry of formatters that is itself callable
+            def __call__(self, v):
+                return fn(v)
+        return Registry()
+    if shape == "len0":
+        class Sized:
+            def __call__(self, v):
+                return fn(v)
+
+            def __len__(self):
+                return 0
+        return Sized()
+    raise Infra("bad callable shape %r" % (shape,))
 
 
 # --------------------------------------------------------------------------------------
@@ -432,12 +525,12 @@ def parse_repr(src):
 
 
 def _enc_fields(cs):
-    return lst("F %s %s %s" % (q(f[0]), enc_rmode(f[1]), b(f[2])) for f in all_fields(cs))
+    return lst(enc_field(f) for f in all_fields(cs))
 
 
 def _collect_script(cs, cls):
     try:
-        src = inspect.getsource((cls.__mro__[1] if cs.get("own_repr") else cls).__repr__)
+        src = inspect.getsource((cls.__mro__[1] if cs.get("own_repr") and has_sub(cs) else cls).__repr__)
     except Exception as e:  # noqa: BLE001
         _script_unrecognised.append("no source: %r" % (e,))
         return
@@ -497,6 +590,7 @@ def build_classes(specs, ctx):
         if qn.rsplit(">.", 1)[-1] != tail or (">." in tail):
             raise Infra("harness naming template broken: %r vs %r" % (qn, tail))
         _collect_script(cs, cls)
+        ctx.defqn.append(m._C.__qualname__)
         out.append(cls)
     return out
 
@@ -725,7 +819,8 @@ def real_run(inp, want_called=False):
         _reset()
         for k in [k for k in linecache.cache if k.startswith("<attrs generated")]:
             del linecache.cache[k]
-    info = {"qualnames": qualnames, "scalars": scalars, "events": events}
+    info = {"qualnames": qualnames, "scalars": scalars, "events": events,
+            "defqn": [ctx.defqn[nd["c"]] if nd["k"] == "i" else "" for nd in inp["nodes"]]}
     if want_called:
         info["called"] = list(ctx.called)
     return seen, info
@@ -742,6 +837,12 @@ def enc_rmode(rm):
     return "(%s %s)" % ("RLeaf" if rm[0] == "leaf" else "RWrap", q(rm[1]))
 
 
+def enc_field(f):
+    if rm_truthy(f[1]):
+        return "F %s %s %s" % (q(f[0]), enc_rmode(f[1]), b(f[2]))
+    return "FT %s %s %s false" % (q(f[0]), enc_rmode(f[1]), b(f[2]))
+
+
 def enc_heap(inp, info):
     out = []
     for i, nd in enumerate(inp["nodes"]):
@@ -753,7 +854,7 @@ def enc_heap(inp, info):
                 # an inherited generated __str__, which calls self.__repr__()) it is a scalar
                 out.append("OS %s" % q(HANDMADE))
                 continue
-            fs = lst("F %s %s %s" % (q(f[0]), enc_rmode(f[1]), b(f[2])) for f in all_fields(cs))
+            fs = lst(enc_field(f) for f in all_fields(cs))
             at = lst("(%s, %d)" % (q(f[0]), nd["a"][f[0]]) for f in all_fields(cs) if f[0] in nd["a"])
             out.append("OI %s %s %s %s %s" % (q(info["qualnames"][i]), b(has_generated_str(cs)),
                                               '(Some "bstr")' if cs.get("base_str") else "None", fs, at))
@@ -800,8 +901,9 @@ def mk_case(inp, family=None):
     calls = lst("%s %d" % ("KRepr" if c[0] == "repr" else "KStr", c[1]) for c in inp["calls"])
     faults = lst(lst(b(x) for x in fl) for fl in (inp.get("faults") or []))
     threaded = bool(inp.get("threaded"))
-    term = "(Case %s %s %s %s %s %s %d %s %s)" % (
-        enc_heap(inp, info), lst(str(x) for x in eq_classes(inp)), b(bool(inp.get("warm"))), faults, b(threaded),
+    term = "(Case %s %s %s %s %s %s %s %d %s %s)" % (
+        enc_heap(inp, info), lst(str(x) for x in eq_classes(inp)), lst(q(x) for x in info["defqn"]),
+        b(bool(inp.get("warm"))), faults, b(threaded),
         lst(str(t) for t in (inp.get("sched") or [])), ROUNDS if threaded else 0, calls,
         lst(enc_obs(e) for e in seen))
     seen_json = [{"result": r, "residue": res} for r, res in seen]
@@ -824,6 +926,9 @@ def mk_case(inp, family=None):
                (cs.get("base") and cs.get("base_strflag") and not cs.get("str")) or cs.get("own_repr")
                for cs in inp["classes"]) and any(c[0] == "str" for c in inp["calls"]),
            "eqmodes": sorted({cs.get("eqmode", "identity") for cs in inp["classes"]}),
+           "falsy_callable": any(isinstance(f[1], list) and not rm_truthy(f[1])
+                                 for cs in inp["classes"] for f in all_fields(cs)),
+           "runtime_class_is_subclass": any(has_sub(cs) for cs in inp["classes"]),
            "has_tuple": any(nd["k"] == "t" for nd in inp["nodes"]),
            "made_by_new": any(nd.get("mk") == "new" for nd in inp["nodes"]),
            "own_init": any(cs.get("own_init") for cs in inp["classes"])}
@@ -836,13 +941,13 @@ def mk_case(inp, family=None):
 
 LEAF = ["leaf", "L"]
 WRAP = ["wrap", "W"]
-RMODES = [True, False, LEAF, WRAP]
+RMODES = [True, False, LEAF, WRAP, ["leaf", "L", "falsy_obj"], ["wrap", "W", "empty_dict"]]
 
 
 def _cls(name, fields, **kw):
     d = {"name": name, "deco": "attr.s", "slots": False, "frozen": False, "naming": "top", "str": False,
          "base_str": False, "base": None, "fields": fields, "own_init": False, "base_strflag": False,
-         "own_repr": False, "eqmode": "identity"}
+         "own_repr": False, "eqmode": "identity", "sub_norepr": False}
     d.update(kw)
     return d
 
@@ -852,7 +957,7 @@ def _format_case(deco, slots, naming, rm, fstate, dflt, how):
     "factory"); how: how an unset attribute came to be unset - "ctor" (constructed, then deleted),
     "new" (cls.__new__(cls): never set), "own_init" (class-level init=False, own __init__ sets nothing)."""
     init = fstate.startswith("init")
-    rmj = rm if isinstance(rm, bool) else [rm[0], "L" if rm[0] == "leaf" else "W"]
+    rmj = rm if isinstance(rm, bool) else [rm[0], "L" if rm[0] == "leaf" else "W"] + rm[2:]
     cs = _cls("C", [["p", True, True], ["x", rmj, init, dflt], ["z", True, False, dflt]], deco=deco,
               slots=slots, naming=naming, str=True, base_str=(init != slots), own_init=(how == "own_init"))
     a = {"p": 1}
@@ -904,6 +1009,23 @@ def gen_equal_but_distinct():
     return out
 
 
+def gen_runtime_names():
+    """The runtime class differs from the decorated class in the SHAPE of its qualified name: a subclass
+    without a generated __repr__ of its own (undecorated, or decorated with repr=False and one more field)
+    at module level / in a class body / doubly nested / in a function / in a class inside a function, for
+    decorated classes that are top-level, nested, local, nested-in-local, local-in-nested-local."""
+    out = []
+    for nm, deco, slots, norepr in itertools.product(ALL_NAMINGS, ["attr.s", "define"], [False, True], [False, True]):
+        if norepr and "+" not in nm:
+            continue
+        cs = _cls("C", [["p", True, True], ["x", ["leaf", "L", "falsy_obj" if slots else "fn"], True]], deco=deco,
+                  slots=slots, naming=nm, str=True, sub_norepr=norepr)
+        nodes = [{"k": "i", "c": 0, "a": {"p": 1, "x": 1}, "mk": "ctor"}, {"k": "s", "v": ["i", 1]}]
+        out.append({"family": "format", "classes": [cs], "nodes": nodes, "calls": [["repr", 0], ["str", 0]],
+                    "faults": [], "warm": False})
+    return out
+
+
 def gen_format_inherited_str():
     """Only an ANCESTOR passes str=True; the runtime class inherits the generated __str__ but has another
     __repr__: an attrs subclass adding fields (any repr kind), or a plain subclass with a hand-written
@@ -912,7 +1034,7 @@ def gen_format_inherited_str():
     for deco, slots, rm, init, kind, bstr in itertools.product(
             ["attr.s", "define"], [False, True], RMODES, [True, False],
             ["attrs_sub", "plain_own_repr", "plain_local_own_repr", "plain"], [False, True]):
-        rmj = rm if isinstance(rm, bool) else [rm[0], "L" if rm[0] == "leaf" else "W"]
+        rmj = rm if isinstance(rm, bool) else [rm[0], "L" if rm[0] == "leaf" else "W"] + rm[2:] + rm[2:]
         own = [["x", rmj, init], ["z", True, False]]
         a = {"b": 1, "x": 2} if init else {"b": 1}
         if kind == "attrs_sub":
@@ -949,9 +1071,10 @@ def rand_rmode(rng, tag):
         return True
     if r < 0.6:
         return False
+    shape = rng.choice(CALLABLE_SHAPES) if rng.random() < 0.35 else "fn"
     if r < 0.8:
-        return ["leaf", "L" + tag]
-    return ["wrap", "W" + tag]
+        return ["leaf", "L" + tag, shape]
+    return ["wrap", "W" + tag, shape]
 
 
 def rand_dflt(rng):
@@ -973,11 +1096,12 @@ def rand_class(rng, idx, maxf=4, simple_names=False):
     fields = [[names.pop(), rand_rmode(rng, "%d%d" % (idx, j)), rng.random() < 0.7, rand_dflt(rng)]
               for j in range(nf)]
     cs = _cls("K%d" % idx, fields, deco=rng.choice(["attr.s", "define"]), slots=rng.random() < 0.5,
-                frozen=rng.random() < 0.2, naming="top" if simple_names and rng.random() < 0.5 else rng.choice(NAMINGS),
+                frozen=rng.random() < 0.2, naming="top" if simple_names and rng.random() < 0.5 else rng.choice(NAMINGS + ALL_NAMINGS),
                 str=rng.random() < 0.4, base_str=rng.random() < 0.3, base=base,
                 own_init=rng.random() < 0.2, base_strflag=rng.random() < 0.4, own_repr=rng.random() < 0.3,
                 eqmode=rng.choice(["identity", "identity", "identity", "true", "fields_off", "fields_off", "raise"]))
-    if cs["naming"] not in ("sub_of_local", "sub_top"):
+    cs["sub_norepr"] = has_sub(cs) and rng.random() < 0.3   # subclass decorated with repr=False (adds a field)
+    if not has_sub(cs) or cs["sub_norepr"]:
         cs["own_repr"] = False      # only the undecorated subclass can carry a hand-written __repr__
     return cs
 
@@ -1149,7 +1273,7 @@ def generate(tier, seed):
     sz = SIZES[tier]
     _script_terms.clear()
     _script_unrecognised.clear()
-    inputs = list(gen_format_exhaustive()) + gen_format_inherited_str() + gen_equal_but_distinct()
+    inputs = list(gen_format_exhaustive()) + gen_format_inherited_str() + gen_equal_but_distinct() + gen_runtime_names()
     for _ in range(sz["format_random"]):
         inputs.append(gen_format_random(rng))
     for _ in range(sz["graph"]):
@@ -1223,6 +1347,8 @@ def distribution(cases):
             "unset_init_false_field_with_default": sum(1 for c in cases if c.sig["noinit_default_unset"]),
             "str_through_inherited_generated___str__": sum(1 for c in cases if c.sig["inherited_generated_str"]),
             "eqmodes": dict(Counter(m for c in cases for m in c.sig["eqmodes"])),
+            "falsy_repr_callable": sum(1 for c in cases if c.sig["falsy_callable"]),
+            "runtime_class_is_subclass_without_own_generated_repr": sum(1 for c in cases if c.sig["runtime_class_is_subclass"]),
             "with_tuple": sum(1 for c in cases if c.sig["has_tuple"]),
             "instance_made_by___new__": sum(1 for c in cases if c.sig["made_by_new"]),
             "class_level_init_false_own_init": sum(1 for c in cases if c.sig["own_init"]),
